@@ -10,7 +10,9 @@ Inductive case :=
 | CChan (a b : ChannelIdentifier) (r_eq r_in : bool)         (* a == b ; a in [b] *)
 | CQubit (a b : string) (r_eq : bool) (ha hb : Z)            (* QubitIDObj(a) == QubitIDObj(b), hash(a), hash(b) *)
 | CEdge (a b c d : string) (r_eq r_contains_a : bool) (h1 h2 : Z)  (* Edge(a,b) == Edge(c,d); Edge(c,d).contains(a); hashes *)
-| CUniq (l r : list Z).                                      (* unique_in_order(l) = r *)
+| CUniq (l r : list Z) (pos : list Z).                        (* unique_in_order(l) = r, where l is a list of pairwise DISTINCT objects whose
+                                                                 equality classes are the numbers in l; pos = for every returned object, its
+                                                                 position in the input (object identity) *)
 
 Definition chan_all (c : ChannelIdentifier) := QubitChannel_eqb (ChannelIdentifier__channel c) QubitChannel_ALL.
 Definition edge (a b : string) := MkEdgeIDObj (MkQubitIDObj a) (MkQubitIDObj b).
@@ -21,7 +23,10 @@ Definition agree (c : case) : bool :=
   | CQubit a b r _ _ => Bool.eqb (QubitIDObj_eq (MkQubitIDObj a) (MkQubitIDObj b)) r
   | CEdge a b c d r rc _ _ => Bool.eqb (EdgeIDObj_eq (edge a b) (edge c d)) r
                               && Bool.eqb (EdgeIDObj_contains (edge c d) (MkQubitIDObj a)) rc
-  | CUniq l r => list_eqb Z.eqb (unique_in_order Z.eqb l) r
+  | CUniq l r pos =>
+      let tagged := combine l (map Z.of_nat (seq 0 (List.length l))) in
+      let out := unique_in_order (fun a b : Z * Z => fst a =? fst b) tagged in
+      list_eqb Z.eqb (map fst out) r && list_eqb Z.eqb (map snd out) pos
   end.
 
 (* the statement of C19, evaluated on what the implementation returned *)
@@ -37,5 +42,10 @@ Definition spec_ok (c : case) : bool :=
       (* proper edges only: the statement is about edges between two different qubits *)
       if String.eqb a b || String.eqb c d then true
       else Bool.eqb r same && (negb r || (h1 =? h2)) && Bool.eqb rc (String.eqb a c || String.eqb a d)
-  | CUniq l r => list_eqb Z.eqb (nub Z.eqb l) r
+  | CUniq l r pos =>
+      (* the FIRST occurrence of every element is kept: the returned objects are those at the positions i with l[i] not among
+         l[0..i-1], in order *)
+      list_eqb Z.eqb (nub Z.eqb l) r
+      && list_eqb Z.eqb (filter (fun i => negb (existsb (Z.eqb (nth (Z.to_nat i) l 0)) (firstn (Z.to_nat i) l)))
+                                (map Z.of_nat (seq 0 (List.length l)))) pos
   end.
